@@ -313,6 +313,10 @@ class World:
         if S is None:
             return False
         m = self.fm[id(S)]
+        if kind == 'relabel' and op.get('fmt') == 'swap':      # the other colour order of the same pixels
+            if m.fmt == 'GRAY':
+                return False
+            op['fmt'] = 'RGB' if m.fmt == 'BGR' else 'BGR'
         if kind == 'relabel' and (op.get('fmt') not in FORMATS or (op['fmt'] == 'GRAY') != (m.fmt == 'GRAY')):
             return False      # a label that contradicts the number of channels is garbage in
         op['src'] = self.focus = i
@@ -524,7 +528,7 @@ class World:
 
 # value 0 of every draw is the simplest outcome: a plain read, slot 0, 1x1, fill 0
 GEN_OPS = [('image', 2), ('jpg', 3), ('write_px', 7), ('ro_rgb', 3), ('ro_bgr', 3), ('rw', 2), ('ro', 2), ('rgb', 2), ('bgr', 2),
-           ('rw_rgb', 2), ('rw_bgr', 2), ('copy', 2), ('pickle', 2), ('gray', 1), ('newdata', 1), ('relabel', 1),
+           ('rw_rgb', 2), ('rw_bgr', 2), ('copy', 2), ('pickle', 2), ('gray', 2), ('newdata', 1), ('relabel', 3),
            ('new_array', 1), ('from_jpg', 1), ('again', 4)]
 
 
@@ -599,7 +603,8 @@ EXH_STARTS = [
 ]
 # every view op, copy, pickle, both reads and a pixel write, each on the start frame (slot 0) and on the newest slot (-1);
 # sharing the image with a second frame only from the start frame
-EXH_ALPHABET = [(k, s) for k in VIEW_OPS + ('copy', 'pickle', 'image', 'jpg', 'write_px') for s in (0, -1)] + [('newdata', 0)]
+EXH_ALPHABET = [(k, s) for k in VIEW_OPS + ('copy', 'pickle', 'image', 'jpg', 'write_px', 'relabel') for s in (0, -1)] + \
+    [('newdata', 0)]
 
 
 def exh_count(depth):
@@ -616,6 +621,8 @@ def exh_history(idx, depth):
         kind, sel = EXH_ALPHABET[d]
         if kind == 'write_px':
             hist.append({'op': kind, 'target': sel, 'via': 'image', 'y': 0, 'x': 0, 'val': [200 + k, 100 + k, 50 + k]})
+        elif kind == 'relabel':
+            hist.append({'op': kind, 'src': sel, 'fmt': 'swap'})
         else:
             hist.append({'op': kind, 'src': sel})
     return hist
